@@ -1,4 +1,5 @@
 import AffVerif.Judge.C12
+import AffVerif.Model.Stats
 /-!
 Judge for C13: item streams and size hints of the three traversals under a skip schedule, and the tree metrics,
 against the machines (correspondence) and against the reference traversals / direct definitions (property).
@@ -133,6 +134,11 @@ def judgeC13 : P Verdict := do
   if !closeTo (meanQ depths) dmean then return .propfail s!"depth_stats mean {dmean} vs {meanQ depths}"
   if depths.length ≥ 2 then
     if !closeTo (varQ depths) dvar then return .propfail s!"depth_stats variance {dvar} vs {varQ depths}"
+  -- correspondence: the running update of `average::Variance` on the depths in traversal order (model: `Welford`)
+  if depths.length ≥ 1 then
+    let mv := Welford.meanVar (depths.map (fun (d : Nat) => ((d : Nat) : Q)))
+    if !closeTo mv.1 dmean then return .diverge s!"depth_stats mean {dmean} vs the running update {mv.1}"
+    if depths.length ≥ 2 && !closeTo mv.2 dvar then return .diverge s!"depth_stats variance {dvar} vs the running update {mv.2}"
   -- correspondence with the machines (items and hints)
   if (lb0, ub0) != h0 then return .diverge s!"{kind}: initial hint machine={h0} impl=({lb0},{ub0})"
   let implFull := rows.map (fun r => (r.a, r.b, r.c, r.lb, r.ub))
